@@ -136,6 +136,10 @@ def _packet_chunk(args):
     return n, out, len(distinct)
 
 
+from flexstack.geonet.gn_address import GNAddress as _GNA, M as _M, ST as _ST, MID as _MID
+SRC_ADDR = _GNA(m=_M.GN_UNICAST, st=_ST.PASSENGER_CAR, mid=_MID(b"\x00\x00\x00\x00\x00\x0c"))
+
+
 def _rhl_mhl_chunk(args):
     """All (RHL, MHL) pairs received for one packet kind: RHL>MHL must be discarded, else processed."""
     kind, rhls = args
@@ -149,9 +153,16 @@ def _rhl_mhl_chunk(args):
             b = net.add("B", b"\x00\x00\x00\x00\x00\x0b", lat=41.0, lon=2.0,
                         mib_kw=dict(itsGnAreaForwardingAlgorithm=AreaForwardingAlgorithm.SIMPLE))
             tst = int((net.now - 1072915200 + 5) * 1000) % 2**32
+            baddr = G.addr_encode(0, 5, b"\x00\x00\x00\x00\x00\x0b")
+            extra = {}
+            if kind in ("guc", "ls_reply"):
+                extra["de"] = dict(addr=baddr, tst=tst, lat=410000000, lon=20000000)
+            if kind == "ls_request":
+                extra["req_addr"] = baddr
             pkt = G.build(kind, so_addr=so, so=dict(tst=tst, lat=410000000, lon=20000000, pai=1), sn=5, rhl=rhl, mhl=mhl,
-                          nh=G.CNH_BTPB, payload=b"\x07\xd1\x00\x00x",
-                          area=dict(lat=410000000, lon=20000000, a=500, b=500, angle=0, shape=0))
+                          nh=G.CNH_BTPB if kind not in ("beacon", "ls_request", "ls_reply") else G.CNH_ANY,
+                          payload=b"\x07\xd1\x00\x00x" if kind not in ("beacon", "ls_request", "ls_reply") else b"",
+                          area=dict(lat=410000000, lon=20000000, a=500, b=500, angle=0, shape=0), **extra)
             n += 1
             exc = None
             try:
@@ -161,12 +172,19 @@ def _rhl_mhl_chunk(args):
             got = len(b.gn_indications)
             fw = len(net.sent)
             delivered += got
+            learnt = b.gn.location_table.get_entry(SRC_ADDR) is not None     # any processing enters the source in the table
             if rhl > mhl:
-                if got or fw:
-                    out.append(dict(kind="rhl_gt_mhl_processed", transport=kind, rhl=rhl, mhl=mhl, delivered=got, forwarded=fw))
+                if got or fw or learnt:
+                    out.append(dict(kind="rhl_gt_mhl_processed", transport=kind, rhl=rhl, mhl=mhl, delivered=got, forwarded=fw, learnt=learnt))
             else:
                 if exc is not None:
                     out.append(dict(kind="valid_rhl_raises", transport=kind, rhl=rhl, mhl=mhl, exc=repr(exc)[:120]))
+                elif kind in ("beacon", "ls_reply"):
+                    if not learnt:
+                        out.append(dict(kind="valid_rhl_not_processed", transport=kind, rhl=rhl, mhl=mhl))
+                elif kind == "ls_request":
+                    if fw != 1:
+                        out.append(dict(kind="valid_rhl_not_processed", transport=kind, rhl=rhl, mhl=mhl, replies=fw))
                 elif got != 1:
                     out.append(dict(kind="valid_rhl_not_delivered", transport=kind, rhl=rhl, mhl=mhl))
     return n, out, delivered
@@ -253,7 +271,7 @@ def run(ctx):
         ctx.parts["emitted_packets"] = dict(evaluations=pn, transports=KINDS, hops=len(hops), lifetimes=len(lifes), mib_defaults=defaults)
 
         # ---- part 5: all RHL x MHL pairs at the receiver ---------------------------------
-        kinds5 = ["shb", "tsb", "gbc"] if not thorough else ["shb", "tsb", "gbc", "gac"]
+        kinds5 = ["shb", "tsb", "gbc", "beacon", "guc", "ls_request"] if not thorough else ["shb", "tsb", "gbc", "gac", "beacon", "guc", "ls_request", "ls_reply"]
         jobs = [(k, list(range(r, min(r + 16, 256)))) for k in kinds5 for r in range(0, 256, 16)]
         rn = 0
         dl = 0
